@@ -186,14 +186,14 @@ META = {
                 "itself), the code's shortcut follows the rule, the cache is transparent for every lookup history from every truthful cache state (any evictions), "
                 "and under every interleaving of the cache Get/Set steps of concurrent evaluations; and over a model of the library as the hub uses it "
                 "(Model/UriTemplate.v: parseURITemplate, expression.init/regexp, the meaning of the generated regular expression): the executable matcher decides "
-                "exactly the expression's language (C11_template_matcher_decides_language) and every RFC 6570 expansion, for string values, of a selector the hub "
+                "exactly the expression's language (C11_template_matcher_decides_language) and every RFC 6570 expansion, for string and list values, of a selector the hub "
                 "treats as a template is answered true (C11_expansions_match). The converse is false of the code and proved so "
                 "(C11_only_expansions_match_refuted_name / _prefix: known findings). Tied to the code by lookup sequences (sequential and concurrent) against "
                 "stores of every size, each answer compared with a fresh uncached evaluation, and by generated templates x topics on which model and library must "
                 "agree on validity, compilability and every match, and the hub must answer by the rule without panicking.",
         "design_ref": "DESIGN.md §5 C11",
         "note": "trusted: Coq kernel + vm_compute; Go's regexp engine (the model gives the meaning of the generated expression; validity by differential runs); "
-                "RFC 6570 expansion transcribed by hand for string values (list and associative-array values: differential runs only); LRU by contract; Go drivers",
+                "RFC 6570 expansion transcribed by hand for string and list values (associative-array values: differential runs only); LRU by contract; Go drivers",
         "technique": "Coq proof (cache-truthfulness invariant over all histories and interleavings; decision procedure = language; expansion completeness by induction) + differential correspondence evaluated in Coq",
     },
     "C12": {
